@@ -185,7 +185,8 @@ def run_check(pid: str, tier: str, level: str, parts: List[Part], assumptions: L
             lines.append("HARNESS-ERROR property=%s part=%s inconclusive: %s %s" % (pid, part.name, r.inconclusive, (r.errors or [""])[0][-1500:]))
             status = EXIT_HARNESS
         else:
-            missing = [w for w in part.require if not r.coverage.get(w)]
+            # ("a|b": either witness will do - the property allows both behaviours)
+            missing = [w for w in part.require if not any(r.coverage.get(x) for x in w.split("|"))]
             if missing:
                 rep["verdict"] = "VACUOUS: coverage witnesses missing %s" % missing
                 lines.append("HARNESS-ERROR property=%s part=%s coverage witnesses missing: %s" % (pid, part.name, missing))
